@@ -89,13 +89,9 @@ def run_case(h, case, classes):
             'meta': {k: frag.meta.get(k) for k in TAGS}}
 
 
-def run_bam(lib, classes, molclasses):
-    """write the reads of a library to a BAM on disk, read them back through MoleculeIterator with the
-    real fragment class and collect the tags written by molecule.write_tags()."""
+def write_bam(lib, path):
     import pysam
-    from singlecellmultiomics.molecule import MoleculeIterator
     h = header()
-    path = os.path.join(os.environ.get('SCMO_SCRATCH', '.'), 'lib%d.bam' % lib['id'])
     recs = []
     for n, case in enumerate(lib['cases']):
         specs = case['reads']
@@ -113,6 +109,15 @@ def run_bam(lib, classes, molclasses):
         for r in recs:
             out.write(r)
     pysam.index(path)
+
+
+def run_bam(lib, classes, molclasses):
+    """write the reads of a library to a BAM on disk, read them back through MoleculeIterator with the
+    real fragment class and collect the tags written by molecule.write_tags()."""
+    import pysam
+    from singlecellmultiomics.molecule import MoleculeIterator
+    path = os.path.join(os.environ.get('SCMO_SCRATCH', '.'), 'lib%d.bam' % lib['id'])
+    write_bam(lib, path)
     res = {}
     with pysam.AlignmentFile(path) as f:
         for mol in MoleculeIterator(f, molclasses[lib['kind']], classes[lib['kind']],
@@ -122,6 +127,22 @@ def run_bam(lib, classes, molclasses):
                 for r in frag:
                     if r is not None:
                         res.setdefault(r.query_name, {})['R2' if r.is_read2 else 'R1'] = observe_read(r)
+    return res
+
+
+def run_cli(lib):
+    """the command line entry point: bamtagmultiome.py <bam> -method <nla|chic> <flags> -o <out>"""
+    import pysam
+    from singlecellmultiomics.universalBamTagger import bamtagmultiome as tm
+    d = os.environ.get('SCMO_SCRATCH', '.')
+    path = os.path.join(d, 'cli%d.bam' % lib['id'])
+    outp = os.path.join(d, 'cli%d.tagged.bam' % lib['id'])
+    write_bam(lib, path)
+    tm.run_multiome_tagging_cmd([path, '-method', lib['kind'], '-o', outp] + list(lib['flags']))
+    res = {}
+    with pysam.AlignmentFile(outp) as f:
+        for r in f:
+            res.setdefault(r.query_name, {})['R2' if r.is_read2 else 'R1'] = observe_read(r)
     return res
 
 
@@ -167,7 +188,7 @@ def handler(p):
     classes = {'nla': NlaIIIFragment, 'chic': CHICFragment}
     molclasses = {'nla': NlaIIIMolecule, 'chic': CHICMolecule}
     h = header()
-    out, bams, mols = [], [], []
+    out, bams, mols, clis = [], [], [], []
     old = sys.stdout
     sys.stdout = io.StringIO()
     try:
@@ -181,6 +202,11 @@ def handler(p):
                 bams.append(run_bam(lib, classes, molclasses))
             except BaseException as e:
                 bams.append({'error': '%s: %s' % (type(e).__name__, e)})
+        for lib in p.get('cli', []):
+            try:
+                clis.append(run_cli(lib))
+            except BaseException as e:
+                clis.append({'error': '%s: %s' % (type(e).__name__, e)})
         for scen in p.get('mol', []):
             try:
                 mols.append(run_mol(scen, classes, molclasses))
@@ -188,7 +214,7 @@ def handler(p):
                 mols.append({'error': '%s: %s' % (type(e).__name__, e)})
     finally:
         sys.stdout = old
-    return {'cases': out, 'bam': bams, 'mol': mols}
+    return {'cases': out, 'bam': bams, 'mol': mols, 'cli': clis}
 
 
 if __name__ == '__main__':
